@@ -162,7 +162,71 @@ func c06WL(c *core.Ctx, w WLCase, maxLeaves int64) {
 	}
 }
 
+// c06Consumed: for recipes whose cell is out of reach (long passwords) the
+// entropy claim is checked against a pigeonhole bound that holds for any
+// implementation: a generation that makes draws of sizes s1..sk can produce at
+// most s1*...*sk different passwords, so the min-entropy - and therefore
+// Entropy() - cannot exceed the sum of log2(si). Sizes are the announced
+// bounds, 2^32 for a raw word; the maximum over all executions with at most
+// one deviating draw is used (wordlist generation without retrying separators
+// makes the same draws on every path).
+func c06Consumed(c *core.Ctx, w WLCase) {
+	r, err := w.build()
+	if err != nil {
+		return
+	}
+	key := "consumed " + mustJSON(w)
+	maxBits := 0.0
+	raw := false
+	st := exploreCell(r.Generate, CellOpt{DepthCut: 4*w.Length + 8, Fallback: 2, MaxMenu: 1 << 17, MaxLeaves: 2_000_000, Dev: 1, Log: true}, func(l *Leaf) {
+		if l.Out.Aborted || !l.Out.HasPw {
+			return
+		}
+		bits := 0.0
+		for i, d := range l.Tape.Log {
+			_ = i
+			if d.Cont {
+				continue // a redraw of the same draw
+			}
+			if d.Announced {
+				bits += math.Log2(float64(d.Bound))
+			} else {
+				bits += 32
+				raw = true
+			}
+		}
+		if bits > maxBits {
+			maxBits = bits
+		}
+	})
+	c.Count("executions", st.Leaves)
+	c.Count("nodes", st.Nodes)
+	c.Count("edges", st.Edges)
+	c.Count("consumed_randomness_cases", 1)
+	if st.Capped || st.TooWide || st.Uncalibrated {
+		c.Incomplete("exploration of %s capped", mustJSON(w))
+		return
+	}
+	install(policyTape(func(b uint32, i int) uint32 { return 0 }))
+	H := float64(r.Entropy())
+	if H > maxBits+8*ref.Ulp32(math.Max(H, 1)) {
+		c.Violation(key, fmt.Sprintf("Entropy() = %v bits, but one generation consumes draws worth only %.4f bits (raw 32-bit reads: %v): fewer than 2^Entropy passwords can ever be produced, so some password is likelier than 2^-Entropy", H, maxBits, raw), map[string]interface{}{"case": w, "mode": "consumed"})
+	}
+	c.Outcome(fmt.Sprintf("consumed L=%d %.3f>=%.3f", w.Length, maxBits, H))
+}
+
 func c06Run(c *core.Ctx) {
+	for _, L := range []int{8, 16, 17, 32, 33, 64, 65, 130} {
+		for _, ws := range [][]string{{"ab"}, {"ab", "cd"}, {"ab", "cd", "efg"}} {
+			for _, cp := range wlSchemes {
+				for _, sp := range []Sep{{Kind: "none"}, {Kind: "SFDigits1"}} {
+					if c.Mine() {
+						c06Consumed(c, WLCase{Words: ws, Length: L, Cap: cp, Sep: sp})
+					}
+				}
+			}
+		}
+	}
 	// character recipes: the configuration set of C02 at a stride, plus all
 	// class-sized cells
 	rs := c02Recipes(c.Tier)
@@ -217,7 +281,7 @@ func init() {
 		ID:    "C06",
 		Level: "model_checking",
 		Rule: "the exact output distributions of the complete cells of C02's character recipes and C04's wordlist cases (every outcome combination of every draw, real Generate), plus lists with uncapitalisable, pre-capitalised and twin words under 'one' and 'random'; oracle: max probability (given that a password is returned) <= 2^-Entropy() within 8 float32 ulps, equality when the distribution is uniform, Password.Entropy bit-identical to Entropy(), Entropy() independent of the random stream; small cells are explored a second time with a source that delivers one byte per read; " +
-			"non-trivial = cases returning more than one distinct password",
+			"for wordlist recipes of 8-130 words a pigeonhole bound: Entropy() may not exceed the bits of randomness one generation consumes; non-trivial = cases returning more than one distinct password",
 		Assume:      []string{"C01 per-draw uniformity", "probabilities of retrying recipes are conditioned on a password being returned"},
 		Run:         c06Run,
 		DistinctKey: "cases_with_several_outputs",
